@@ -203,11 +203,14 @@ func (s *S3Proxy) GetBucketVersioning(ctx context.Context, bucket string) (s3res
 	out, err := s.client.GetBucketVersioning(ctx, &s3.GetBucketVersioningInput{
 		Bucket: &bucket,
 	})
+	if err != nil {
+		return s3response.GetBucketVersioningOutput{}, handleError(err)
+	}
 
 	return s3response.GetBucketVersioningOutput{
 		Status:    &out.Status,
 		MFADelete: &out.MFADelete,
-	}, handleError(err)
+	}, nil
 }
 
 func (s *S3Proxy) ListObjectVersions(ctx context.Context, input *s3.ListObjectVersionsInput) (s3response.ListVersionsResult, error) {
@@ -952,19 +955,35 @@ func (s *S3Proxy) GetObjectAttributes(ctx context.Context, input *s3.GetObjectAt
 		input.VersionId = nil
 	}
 
-	out, err := s.client.GetObjectAttributes(ctx, input)
+	if len(input.ObjectAttributes) == 0 {
+		// the front end filters the answer by the requested attributes itself;
+		// the member is required by the SDK
+		input.ObjectAttributes = []types.ObjectAttributes{
+			types.ObjectAttributesEtag,
+			types.ObjectAttributesChecksum,
+			types.ObjectAttributesObjectParts,
+			types.ObjectAttributesStorageClass,
+			types.ObjectAttributesObjectSize,
+		}
+	}
 
-	parts := s3response.ObjectParts{}
+	out, err := s.client.GetObjectAttributes(ctx, input)
+	if err != nil {
+		return s3response.GetObjectAttributesResponse{}, handleError(err)
+	}
+
+	var parts *s3response.ObjectParts
 	objParts := out.ObjectParts
 	if objParts != nil {
+		parts = &s3response.ObjectParts{}
 		if objParts.PartNumberMarker != nil {
 			partNumberMarker, err := strconv.Atoi(*objParts.PartNumberMarker)
-			if err != nil {
+			if err == nil {
 				parts.PartNumberMarker = partNumberMarker
 			}
 			if objParts.NextPartNumberMarker != nil {
 				nextPartNumberMarker, err := strconv.Atoi(*objParts.NextPartNumberMarker)
-				if err != nil {
+				if err == nil {
 					parts.NextPartNumberMarker = nextPartNumberMarker
 				}
 			}
@@ -983,9 +1002,11 @@ func (s *S3Proxy) GetObjectAttributes(ctx context.Context, input *s3.GetObjectAt
 		LastModified: out.LastModified,
 		ObjectSize:   out.ObjectSize,
 		StorageClass: out.StorageClass,
-		ObjectParts:  &parts,
+		ObjectParts:  parts,
 		Checksum:     out.Checksum,
-	}, handleError(err)
+		VersionId:    out.VersionId,
+		DeleteMarker: out.DeleteMarker,
+	}, nil
 }
 
 func (s *S3Proxy) CopyObject(ctx context.Context, input s3response.CopyObjectInput) (*s3.CopyObjectOutput, error) {
